@@ -166,6 +166,18 @@ func (s *searcher) parentReported(dir uint64, ino uint64, upto int) bool {
 	return false
 }
 
+func (s *searcher) uncertain(wd int32, upto int) bool {
+	if s.wr.Inst == nil {
+		return false
+	}
+	for _, d := range s.wr.Inst.Dropped {
+		if d.Wd == wd && d.Step <= upto {
+			return true
+		}
+	}
+	return false
+}
+
 func evMatch(e MEvent, d Delivered) bool {
 	if e.Name != d.Name || e.Op != d.Op {
 		return false
@@ -344,6 +356,7 @@ func (s *searcher) natural() []MEvent {
 	m := newModel(s.recurse)
 	m.FindAdd = s.findAdd
 	m.ParentReported = s.parentReported
+	m.Uncertain = s.uncertain
 	var out []MEvent
 	for _, it := range items {
 		if it.isRec {
